@@ -12,6 +12,8 @@
 
 All names start with `cli` (the generated file is shared by all extractors)."""
 from __future__ import annotations
+
+PROPERTIES = ['C04', 'C20']   # properties whose proofs depend on these declarations
 import ast
 from fractions import Fraction
 
